@@ -15,7 +15,12 @@ pub fn plan() -> Plan {
     p.topics = vec!["a", "a/b", "a/c", "b", "a/b/c"];
     p.burst_pm = 10;
     p.shared_pm = 100;
-    p.persistent_pm = 100;
+    p.persistent_pm = 300;
+    p.w.link_drop = 5;
+    p.w.takeover = 3;
+    p.w.connect = 10;
+    p.props_pm = 300;
+    p.pub_alias_pm = 150;
     let mut single = p.clone();
     single.name = "c15-single";
     single.stepping = Stepping::Single;
